@@ -56,6 +56,11 @@ func (x *FnCtx) call(fr *Frame, st *State, in ssa.Value, c *ssa.CallCommon) Valu
 	if fv, ok := x.val(fr, st, c.Value).(FuncV); ok {
 		return x.callFunction(fr, st, fv.Fn, args, fv.Bindings, site, resT)
 	}
+	if name := dynFieldName(c.Value); name != "" {
+		if ctr := x.eng.specs.Contracts[pkgOf(fr.fn).Path()+".dyn."+name]; ctr != nil {
+			return x.applyContract(fr, st, ctr, nil, c.Signature(), nil, args, site, resT)
+		}
+	}
 	return x.unknownCall(st, "dynamic call", args, resT, site)
 }
 
@@ -193,6 +198,9 @@ func (x *FnCtx) havocObject(st *State, ref *Term, t types.Type) {
 
 // unknownCall: no contract and no body: everything reachable may change.
 func (x *FnCtx) unknownCall(st *State, name string, args []Value, resT types.Type, site string) Value {
+	if x.inInit {
+		return x.freshResult(st, name, resT)
+	}
 	x.hasUnknownCall = true
 	x.abstracted("call without contract havocs the heap: " + name)
 	x.havocAll(st)
@@ -459,6 +467,29 @@ func (x *FnCtx) resolveModItem(it *Expr, ec *EvalCtx) (modItem, error) {
 				return modItem{kind: "object", ref: vv.Ref, t: vv.T}, nil
 			}
 			return modItem{}, fmt.Errorf(".* on non-struct")
+		}
+		if strings.HasPrefix(it.Name, "$") {
+			g, ok := x.eng.specs.Ghosts["."+it.Name[1:]]
+			if !ok {
+				return modItem{}, fmt.Errorf("unknown ghost field %s", it.Name)
+			}
+			v := ec.eval(it.Args[0])
+			if ec.err != nil {
+				return modItem{}, ec.err
+			}
+			var r *Term
+			switch bv := v.V.(type) {
+			case StructV:
+				r = bv.Ref
+			case *Term:
+				r = bv
+			default:
+				return modItem{}, fmt.Errorf("ghost field of %T", v.V)
+			}
+			gt := ec.typeByName(g.Type)
+			fi := &fieldInfo{Name: g.Name, T: gt, Struct: "$"}
+			fieldByMap[fieldMap(fi)] = fi
+			return modItem{kind: "field", ref: r, fi: fi}, nil
 		}
 		ref, fi, err := x.fieldRef(it, ec)
 		if err != nil {
@@ -912,4 +943,21 @@ func (x *FnCtx) runDefers(fr *Frame, st *State) {
 			}
 		}
 	}
+}
+
+// dynFieldName: the callee is a func value loaded from a struct field: its field name.
+func dynFieldName(v ssa.Value) string {
+	u, ok := v.(*ssa.UnOp)
+	if !ok {
+		return ""
+	}
+	fa, ok := u.X.(*ssa.FieldAddr)
+	if !ok {
+		return ""
+	}
+	st, ok := derefType(fa.X.Type()).Underlying().(*types.Struct)
+	if !ok {
+		return ""
+	}
+	return st.Field(fa.Field).Name()
 }
